@@ -381,6 +381,12 @@ def layout_predicate(mini, case, status, key):
     return "layout-specific"
 
 
+def _dask_concat(dfs):
+    from dask.dataframe.dispatch import concat
+
+    return concat(list(dfs))
+
+
 def partitionwise_equal(desc, case, val):
     """True when the dask value equals pandas applied to every input partition separately (concatenating the
     non-empty pieces): then the only difference to the whole-frame reference is what pandas itself infers per piece
@@ -398,8 +404,13 @@ def partitionwise_equal(desc, case, val):
         parts = dask.compute(*[ddf.partitions[i] for i in range(ddf.npartitions)], scheduler="sync")
         outs = [P.apply(desc, p, False) for p in parts]
         keep = [o for o in outs if len(o)] or outs[:1]
-        pw = pd.concat(keep)
-        return F.compare(val, pw, ordered=True) is None
+        for cat in (_dask_concat, pd.concat):     # labelling only: dask's own concat unions categoricals
+            try:
+                if F.compare(val, cat(keep), ordered=True) is None:
+                    return True
+            except Exception:  # noqa: BLE001
+                continue
+        return False
     except Exception:  # noqa: BLE001
         return False
 
@@ -410,7 +421,7 @@ _RANK = ("other", "frame-arith", "frame-cmp", "where-frame", "apply", "str", "as
 
 # expression classes every program contains: an exception inside them does not name the mechanism by itself
 _GENERIC_OWNERS = {"Projection", "Blockwise", "Elemwise", "Filter", "Assign", "Expr", "Index", "And", "Or", "FromPandas",
-                   "FromMap", "FromDelayed", "Fused", "StringAccessor", "Accessor", "None", "DataFrame", "Series", "FrameBase"}
+                   "FromMap", "FromDelayed", "Fused", "Accessor", "None", "DataFrame", "Series", "FrameBase"}
 
 
 # culprits whose known defect produces a malformed intermediate object (arbitrary downstream symptoms)
@@ -431,7 +442,8 @@ def make_label(mini, layout, key):
     program with the most structure (second operands > frame-level binary ops / where > apply > astype / fillna / clip
     / isin > assign > filter > series ops > rename > projection; ties: the later step).  Two input-feature predicates
     replace the culprit because the wrong intermediate object they produce fails in arbitrary ways downstream:
-    a filter whose predicate is an ``astype`` node, and an ``astype`` step followed by a filter.  Exceptions raised
+    a filter whose predicate is an ``astype`` node, an ``astype`` step followed by a filter, and ``fillna(dict)``
+    followed by a projecting step.  Exceptions raised
     inside the methods of one specific expression class (e.g. ``MethodOperator._simplify_up``) are labelled by that site
     alone: ``expr-node:ExcType@Class.method``."""
     fams = [family(c) for c in mini["classes"]]
@@ -439,7 +451,10 @@ def make_label(mini, layout, key):
     exc = "@" in key or key.startswith("meta-generation")
     if any(_pred_is_astype(st) for st in steps):
         return "filter:predicate-is-astype-node:%s" % ("exception" if exc else "wrong-result")
-    ia = [i for i, f in enumerate(fams) if f.split(":")[0] == "astype"]
+    ifd = [i for i, st in enumerate(steps) if st["op"] == "fillna" and isinstance(st.get("value"), dict)]
+    if ifd and ifd[0] < len(steps) - 1 and not exc:
+        return "fillna:dict-value-then-projection:wrong-result"
+    ia = [i for i, f in enumerate(fams) if f.split(":")[0] == "astype" or f.startswith("series:astype")]
     if ia and any(st["op"] in ("filter", "sfilter") for st in steps[ia[0] + 1:]) and \
             not any(_rank(f) < _rank("astype") for f in fams):
         return "astype-then-filter:%s" % ("exception" if exc else "wrong-result:" + key)
